@@ -269,7 +269,7 @@ func runFamily(p AtomPlan, record bool, st *atomStats) []atomViolation {
 			mu.Unlock()
 		}(ri, r)
 	}
-	wg.Wait()
+	waitRound(&wg, record)
 	var vs []atomViolation
 	name := map[string]string{"deleteprefix": "DeletePrefix", "clear": "Clear"}[p.Mut]
 	for _, s := range panics {
@@ -618,7 +618,7 @@ func runFree(p AtomPlan, record bool, st *atomStats) []atomViolation {
 			}
 		}(r)
 	}
-	wg.Wait()
+	waitRound(&wg, record)
 	st.freeChecks += int(checks.Load())
 	st.freeStrict += int(strict.Load())
 	return vs
@@ -678,8 +678,13 @@ func childAtom(c *vf.Ctx, start, count int, race bool) {
 		p := atomPlanFor(c, idx)
 		runtime.GOMAXPROCS(p.Procs)
 		c.Mark("atom " + strconv.Itoa(idx))
-		vs := runAtom(p, !race, st)
+		var vs []atomViolation
+		dl := guardDeadlock(func() { vs = runAtom(p, !race, st) })
 		runtime.GOMAXPROCS(runtime.NumCPU())
+		if dl != nil {
+			c.Violation("deadlock", fmt.Sprintf("%s round %d: every goroutine is parked on a lock in consecutive snapshots and the round has not finished", p.Kind, idx), map[string]any{"atomplan": p, "goroutines": dl.frames})
+			break // the parked goroutines cannot be removed; end this child
+		}
 		for _, v := range vs {
 			if reported < 12 {
 				reported++
